@@ -28,11 +28,11 @@ variable (H : Alg → Bytes → Bytes)
 /-- the member `m`, placed at stream position `base`, reads as the clean record `r` whatever follows it -/
 def ReadsAs (o : Opts) (Ω : Oracles) (base : Nat) (m : Bytes) (r : Rec) : Prop :=
   ∀ (rest : Bytes) (fault : Bool),
-    (unmarshal H o (Ω.shift base) ⟨m ++ rest, fault⟩).err = none ∧
-    (unmarshal H o (Ω.shift base) ⟨m ++ rest, fault⟩).record = some r ∧
-    (unmarshal H o (Ω.shift base) ⟨m ++ rest, fault⟩).offset = 0 ∧
-    (unmarshal H o (Ω.shift base) ⟨m ++ rest, fault⟩).fnd = [] ∧
-    (unmarshal H o (Ω.shift base) ⟨m ++ rest, fault⟩).rest = rest
+    (unmarshal H o Ω ⟨m ++ rest, fault⟩).err = none ∧
+    (unmarshal H o Ω ⟨m ++ rest, fault⟩).record = some r ∧
+    (unmarshal H o Ω ⟨m ++ rest, fault⟩).offset = 0 ∧
+    (unmarshal H o Ω ⟨m ++ rest, fault⟩).fnd = [] ∧
+    (unmarshal H o Ω ⟨m ++ rest, fault⟩).rest = rest
 
 /-- every member of the list reads as its record at the position where it lies -/
 def AllReadAs (o : Opts) (Ω : Oracles) : Nat → List (Bytes × Rec) → Prop
@@ -46,10 +46,10 @@ def cleanItems : Nat → List (Bytes × Rec) → List NextRes
 def totalLen (ms : List (Bytes × Rec)) : Nat := ((ms.map (·.1)).flatten).length
 
 theorem readLoop_succ (o : Opts) (Ω : Oracles) (fuel base : Nat) (s : Stream)
-    (h : (unmarshal H o (Ω.shift base) s).err = none) :
+    (h : (unmarshal H o Ω s).err = none) :
     readLoop H o Ω (fuel + 1) base s =
-      ⟨base + (unmarshal H o (Ω.shift base) s).offset, (unmarshal H o (Ω.shift base) s).record, (unmarshal H o (Ω.shift base) s).fnd, none⟩ ::
-        readLoop H o Ω fuel (base + (s.rest.length - (unmarshal H o (Ω.shift base) s).rest.length)) ⟨(unmarshal H o (Ω.shift base) s).rest, s.fault⟩ := by
+      ⟨base + (unmarshal H o Ω s).offset, (unmarshal H o Ω s).record, (unmarshal H o Ω s).fnd, none⟩ ::
+        readLoop H o Ω fuel (base + (s.rest.length - (unmarshal H o Ω s).rest.length)) ⟨(unmarshal H o Ω s).rest, s.fault⟩ := by
   rw [readLoop]; simp only [h]
 
 /-- **complete records survive**: members that read as clean records are returned, unaltered and without findings, at
@@ -86,7 +86,7 @@ theorem C06_survive_cut (o : Opts) (Ω : Oracles) (ms : List (Bytes × Rec)) (ne
 theorem C06_short_tail (o : Opts) (Ω : Oracles) (fuel base : Nat) (tail : Bytes) (h1 : tail ≠ []) (h5 : tail.length < 5) :
     ∃ it, readLoop H o Ω (fuel + 1) base ⟨tail, false⟩ = [it] ∧ it.err = some .eof ∧ it.record = none ∧
       it.offset = base ∧ it.offset < base + tail.length := by
-  have hu : unmarshal H o (Ω.shift base) ⟨tail, false⟩ = ⟨none, 0, [], some .eof, []⟩ := by
+  have hu : unmarshal H o Ω ⟨tail, false⟩ = ⟨none, 0, [], some .eof, []⟩ := by
     unfold unmarshal
     have : skipJunk (tail.length + 1) tail 0 = .inl 0 := by
       rw [skipJunk]; simp [h5]
@@ -111,7 +111,7 @@ theorem C06_cut_version_line (o : Opts) (Ω : Oracles) (fuel base : Nat) (after 
         simp [Ne.symm hnl.1]
       rw [readBytesNL]; simp only [hb, Bool.false_eq_true, ↓reduceIte]
       exact ih (by intro hm; exact hnl (List.mem_cons_of_mem _ hm))
-  have hu : unmarshal H o (Ω.shift base) ⟨bs "WARC/" ++ after, false⟩ = ⟨none, 0, [], some .eof, []⟩ := by
+  have hu : unmarshal H o Ω ⟨bs "WARC/" ++ after, false⟩ = ⟨none, 0, [], some .eof, []⟩ := by
     unfold unmarshal
     have hlen : ¬ (bs "WARC/" ++ after).length < 5 := by simp [bs]
     have hmagic : isMagic (bs "WARC/" ++ after) = true := by
